@@ -35,7 +35,7 @@ ObsOK(o) ==
   /\ o.exc = m'.exc
 
 PropsOK == CircuitsMatch' /\ StreamsMatch' /\ StreamDetails' /\ AttachBothWays' /\ NoExc'
-           /\ WaitsOnce' /\ BuiltWaits' /\ CloseWaits'
+           /\ WaitsOnce' /\ BuiltWaits' /\ CloseWaits' /\ TimedBuilds'
 
 Last(s) == s[Len(s)]
 Step(e) ==
@@ -60,6 +60,8 @@ Step(e) ==
     [] e.a = "CloseC"      -> CloseC(e.x, e.id)
     [] e.a = "CloseS"      -> CloseS(e.x, e.id)
     [] e.a = "Build"       -> Build(e.x, e.id, e.pur, e.bf)
+    [] e.a = "TimedBuild"  -> TimedBuild(e.x, e.id, e.pur, e.bf)
+    [] e.a = "BuildTimeout" -> BuildTimeout(e.x)
     [] e.a = "Ack"         -> Ack
     [] e.a = "Nack"        -> Nack
     [] OTHER -> FALSE
